@@ -451,6 +451,9 @@ impl WriterPool {
 /// where the executor currently is: (history number, op index, inside a build); read by the hang watchdog
 pub static PROGRESS: std::sync::Mutex<(i64, i64, bool)> = std::sync::Mutex::new((-1, -1, false));
 
+/// last page number of the environment after each successful commit of the history run last (measuring runs)
+pub static PAGES_AFTER_COMMIT: std::sync::Mutex<Vec<u64>> = std::sync::Mutex::new(Vec::new());
+
 static PROGRESS_FILE: std::sync::Mutex<Option<std::fs::File>> = std::sync::Mutex::new(None);
 
 /// records where the executor is; when VERIF_PROGRESS_FILE is set the position is also written to that
@@ -635,6 +638,13 @@ pub fn run_history_with(
 
     for (k, op) in h.ops.iter().enumerate() {
         if wtxn.is_none() {
+            if let Op::Build { o, .. } = op {
+                if let Some(free) = o.map_free_pages {
+                    // no transaction is open: give the environment exactly `free` pages beyond what it uses
+                    let used = env.info().last_page_number + 1;
+                    unsafe { env.resize((used + free) * 4096).unwrap() };
+                }
+            }
             wtxn = Some(env.write_txn().unwrap());
         }
         if dead && !matches!(op, Op::Commit | Op::Abort) {
@@ -644,14 +654,23 @@ pub fn run_history_with(
         match op {
             Op::Commit | Op::Abort => {
                 let w = wtxn.take().unwrap();
-                let is_commit = matches!(op, Op::Commit) && !dead;
+                let mut is_commit = matches!(op, Op::Commit) && !dead;
                 dead = false;
                 last_st.clear();
                 let res = if is_commit {
                     match w.commit() {
                         Ok(()) => {
                             committed_metric = metric.clone();
+                            // page usage after each commit (the out-of-space driver enumerates map sizes around it)
+                            PAGES_AFTER_COMMIT.lock().unwrap().push(env.info().last_page_number as u64);
                             json!({"c":"Ok"})
+                        }
+                        Err(e) if h.faults.iter().any(|f| f == "mapfull") && format!("{e}").contains("MAP_FULL") => {
+                            // LMDB itself ran out of space while committing (the commit needs pages of its own) under a
+                            // deliberately small map: the transaction is rolled back, which is what an abort is
+                            is_commit = false;
+                            metric = committed_metric.clone();
+                            json!({"c":"Ok","commit_ran_out_of_space":true})
                         }
                         Err(e) => json!({"c":"Heed","msg":format!("{e}")}),
                     }
